@@ -141,33 +141,112 @@ def model_check(tier, scans=False):
     return gen_n, dist, names
 
 
-def model_check_cached(tier, scans=False):
-    """model_check + killers depend on the specification and the scenario catalogue only (not on the code under
-    test): the sibling checks C03/C04/C14 share one TLC run per (spec, catalogue, tier); returns
-    ((generated, distinct, names, killers), reused)"""
+# ---------------------------------------------------------------- C14: no trap (design level)
+_RE_LK = re.compile(r'/\\ lk = (.*?)(?:\n/\\|\Z)', re.S)
+_RE_LKW = re.compile(r'\d+ :> (\d+)')
+
+
+def _trap_work(arg):
+    """complete interleaving graph of one scenario (lock versions <= max_version): backward reachability from the
+    states in which every operation has returned.  A reachable state from which neither such a state nor the
+    exploration frontier (a lock word within one write of the version bound: its successors may have been cut) can
+    be reached is a trap: a set of threads that can never all return, whatever the scheduler does from there on
+    (deadlock, or a livelock no schedule can leave)."""
+    sc, max_version = arg
+    mod, gd = gen("trap_" + sc.name, sc.init, sc.progs, qeach=(sc.q == "each"),
+                  max_extra=4 + 3 * sum(len(p) for p in sc.progs), max_version=max_version)
+    dump = os.path.join(gd, mod + "_graph")
+    r = vlib.tlc(mod, mod + ".cfg", spec_dir=gd, workers=1, timeout=1500, xmx="2g", dump=dump)
+    if r.error or r.violation:
+        raise vlib.CheckBroken("OlcArt trap analysis %s: %s" % (sc.name, r.error or r.violation))
+    g = tlaparse.load_dot(dump + ".dot")
+    os.unlink(dump + ".dot")
+    good = set()
+    frontier = 0
+    for sid, txt in g.states.items():
+        pcs = _RE_PC.findall(txt)
+        if all(p == "done" for p in pcs):
+            good.add(sid)
+            continue
+        m = _RE_LK.search(txt)
+        if m and any(int(w) >= max_version - 3 for w in _RE_LKW.findall(m.group(1))):
+            good.add(sid)
+            frontier += 1
+    rev = {}
+    for a, es in g.edges.items():
+        for (lab, args, b) in es:
+            rev.setdefault(b, []).append(a)
+    stack = list(good)
+    while stack:
+        u = stack.pop()
+        for v in rev.get(u, ()):
+            if v not in good:
+                good.add(v)
+                stack.append(v)
+    traps = [sid for sid in g.states if sid not in good]
+    sample = ""
+    if traps:
+        sample = g.states[traps[0]][:1500]
+    return dict(scenario=sc.name, states=len(g.states), frontier_states=frontier, trap_states=len(traps), sample=sample,
+                generated=r.generated, distinct=r.distinct)
+
+
+def trap_analysis(tier, scans=False, max_version=12):
+    cat = scenarios.scan_scenarios(tier) if scans else scenarios.point_scenarios(tier)
+    scs = [s for s in cat if usable(s, scans) and len(s.init) <= (6 if scans else 17)
+           and len(s.progs) == 2 and sum(len(p) for p in s.progs) <= (3 if tier == "quick" else 4)]
+    if scans and tier == "quick":
+        # the largest graphs are left to the thorough tier
+        scs = [s for s in scs if "_vs_collapse" not in s.name and "reseek_grow" not in s.name and "two_levels" not in s.name
+               and "range_inplace" not in s.name and "i16" not in s.name]
+    prepare()
+    import concurrent.futures as cf
+    with cf.ProcessPoolExecutor(max_workers=vlib.NCPU) as ex:
+        per = list(ex.map(_trap_work, [(s, max_version) for s in scs]))
+    return {"scenarios": len(per), "states": sum(p["states"] for p in per), "trap_states": sum(p["trap_states"] for p in per),
+            "frontier_states": sum(p["frontier_states"] for p in per),
+            "traps": [{"scenario": p["scenario"], "trap_states": p["trap_states"], "sample_state": p["sample"]} for p in per if p["trap_states"]],
+            "rule": "complete interleaving graph per 2-thread scenario, lock versions <= %d; backward reachability from the all-returned states; states from which the exploration frontier is reachable are not judged" % max_version}
+
+
+def _spec_cached(tag, fn):
+    """results that depend on the specification and the scenario catalogue only (not on the code under test)
+    are computed once per (spec, catalogue, tag) and shared by the sibling checks; -> (value, reused)"""
     import hashlib
     h = hashlib.sha1()
     for f in (os.path.join(vlib.SPEC, "OlcArt.tla"), os.path.join(vlib.SPEC, "OlcArtIter.tla"),
               os.path.join(vlib.VERIF, "tools", "olcart.py"), os.path.join(vlib.VERIF, "tools", "olcart_scen.py"),
-              os.path.join(vlib.VERIF, "tools", "scenarios.py")):
+              os.path.join(vlib.VERIF, "tools", "scenarios.py"), os.path.join(vlib.VERIF, "tools", "tlaparse.py")):
         with open(f, "rb") as fh:
             h.update(fh.read())
-    h.update(("%s %s" % (tier, scans)).encode())
-    path = os.path.join(vlib.CACHE, "olcart_mc_%s.json" % h.hexdigest()[:16])
+    h.update(tag.encode())
+    path = os.path.join(vlib.CACHE, "olcart_%s.json" % h.hexdigest()[:16])
     if os.path.exists(path):
         try:
             with open(path) as f:
-                c = json.load(f)
-            return (c["generated"], c["distinct"], c["names"], c["killers"]), True
-        except (ValueError, KeyError):
+                return json.load(f), True
+        except ValueError:
             pass
-    gen_n, dist, names = model_check(tier, scans)
-    kill = killers()
+    v = fn()
+    os.makedirs(vlib.CACHE, exist_ok=True)
     tmp = path + ".tmp%d" % os.getpid()
     with open(tmp, "w") as f:
-        json.dump({"generated": gen_n, "distinct": dist, "names": names, "killers": kill}, f)
+        json.dump(v, f)
     os.replace(tmp, path)
-    return (gen_n, dist, names, kill), False
+    return v, False
+
+
+def model_check_cached(tier, scans=False):
+    """-> ((generated, distinct, names, killers), reused)"""
+    def fn():
+        gen_n, dist, names = model_check(tier, scans)
+        return {"generated": gen_n, "distinct": dist, "names": names, "killers": killers()}
+    c, reused = _spec_cached("mc %s %s" % (tier, scans), fn)
+    return (c["generated"], c["distinct"], c["names"], c["killers"]), reused
+
+
+def trap_analysis_cached(tier, scans=False):
+    return _spec_cached("trap %s %s" % (tier, scans), lambda: trap_analysis(tier, scans))
 
 
 _RE_STATE = re.compile(r"^State \d+: .*?$\n((?:^(?:/\\|  |   ).*$\n?)+)", re.M)
